@@ -453,6 +453,19 @@ func (ev *Eval) ident(name string) *Value {
 			}
 			ev.fail("rangeidx used in a loop that is not a range-over-slice loop")
 		}
+		if name == "rangeslice" && ev.loop != nil {
+			// the slice value a range-over-slice loop iterates over (evaluated once, before the loop)
+			for _, ins := range ev.loop.header.Instrs {
+				if b, ok := ins.(*ssa.BinOp); ok && b.Op == token.LSS {
+					if c, ok := b.Y.(*ssa.Call); ok && len(c.Call.Args) == 1 {
+						if val := ev.v.regOrNil(ev.st, c.Call.Args[0]); val != nil {
+							return val
+						}
+					}
+				}
+			}
+			ev.fail("rangeslice used in a loop that is not a range-over-slice loop")
+		}
 		if c := ev.localCell(name); c != nil {
 			st := ev.state()
 			if ev.inOld {
@@ -734,6 +747,23 @@ func (ev *Eval) call(e *Expr) *Value {
 		r := ev.eval(e.Args[0])
 		ev.st = saveSt
 		return r
+	case "prevmem":
+		// prevmem(e): e evaluated with the current local variables but the memory of the iteration start
+		// (`prevmem(x.f)` for the x of this iteration: what x.f was before the iteration ran)
+		if ev.prev == nil {
+			ev.fail("prevmem(...) outside a loop step clause")
+		}
+		hy := ev.st.clone()
+		hy.heap = map[string]*Term{}
+		for k, h := range ev.prev.heap {
+			hy.heap[k] = h
+		}
+		hy.lazyHavoc = ev.prev.lazyHavoc
+		saveSt := ev.st
+		ev.st = hy
+		r := ev.eval(e.Args[0])
+		ev.st = saveSt
+		return r
 	case "locked":
 		// value of e right after the function under verification first acquired a monitor lock
 		snap := ev.st.lockSnap
@@ -751,6 +781,9 @@ func (ev *Eval) call(e *Expr) *Value {
 		return scalar(specInt, ev.v.lenOf(ev.state(), x))
 	case "cap":
 		x := ev.eval(e.Args[0])
+		if _, ok := under(x.T).(*types.Chan); ok {
+			return scalar(specInt, Select(ev.state().heapArr("chan#cap", ArrSort(SInt, SInt)), x.term()))
+		}
 		return scalar(specInt, x.sCap())
 	case "min", "max":
 		r := ev.intExpr(e.Args[0])
